@@ -21,6 +21,7 @@ RULE = (
     "permutation and rescaling invariance, errors. Non-trivial = a reference bin is filtered and the sample row order differs from "
     "the reference order, or a correction is enabled; distinct = distinct case JSON."
 )
+CLI_SHARE = 4  # one case in CLI_SHARE also goes through the command line (vk/cli.py)
 QUICK = {"examples": 800, "shards": 16, "budget_s": 500, "shrink": False}
 THOROUGH = {"examples": 6400, "shards": 16, "budget_s": 3000}
 ASSUMPTIONS = [
